@@ -22,6 +22,18 @@ static int combination(const std::string &ob, bool kf)
     struct W { RCP<const Basic> e; map_basic_basic sub; };
     std::vector<W> ws;
     // witnesses of the KNOWN-FINDING input classes are used only when the full-domain (known finding) run is replayed (kf=1)
+    if (ob.find("ComplexVisitor") != std::string::npos) {
+        // is_complex = "a finite complex number": a definite true with a non-finite operand is wrong at some point of the domain
+        set_basic sc; sc.insert(contains(x, complexes())); sc.insert(contains(y, complexes())); Assumptions ac(sc);
+        for (auto &ee : {mul(Inf, x), mul(ComplexInf, x), mul(Nan, x), mul(mul(Inf, x), y), add(x, y), mul(x, y)}) {
+            tribool q = is_complex(*ee, &ac);
+            RCP<const Basic> val = ee->subs({{x, integer(1)}, {y, integer(1)}});
+            tribool v = is_complex(*val);
+            std::cout << "is_complex(" << ee->__str__() << " | x, y complex) = " << (is_true(q) ? "true" : is_false(q) ? "false" : "indeterminate") << "; at x=1 y=1 the value is " << val->__str__() << "\n";
+            if (is_true(q) && is_false(v)) { std::cout << "REPRODUCED: the definite answer is wrong for an assignment that satisfies the assumptions\n"; bad = 1; }
+        }
+        return bad;
+    }
     if (ob.find("RealVisitor.Mul") != std::string::npos) { ws.push_back({mul(add(x, I), add(y, I)), {{x, integer(1)}, {y, integer(-1)}}}); ws.push_back({mul(mul(add(x, I), sub(x, I)), y), {{x, integer(2)}, {y, integer(3)}}});
         if (kf) { ws.push_back({mul(I, x), {{x, zero}}}); ws.push_back({mul(mul(I, x), y), {{x, integer(1)}, {y, zero}}}); } }
     else if (ob.find("RealVisitor.Add") != std::string::npos) { ws.push_back({add(x, mul(y, z)), {{x, integer(1)}, {y, integer(2)}, {z, integer(3)}}});
